@@ -59,7 +59,7 @@ def plan(tier, seed):
         {"key": "pack/boundaries", "kind": "pack_bound", "cost": 50},
         {"key": "stager/short", "kind": "stager_short", "cost": 200},
         {"key": "stager/random", "kind": "stager_random", "cost": 400},
-        {"key": "staged/find", "kind": "staged", "cost": 3000},
+    ] + [{"key": f"staged/find/{i}", "kind": "staged", "part": i, "cost": 800} for i in range(8)] + [
     ]
     for off in (0, 1, 0x41, 0x61, 240):
         ch.append({"key": f"netbios/{off}", "kind": "netbios", "offset": off, "cost": 300})
@@ -370,7 +370,9 @@ def chunk_staged(chunk, acc):
     junk = lcg(300, acc.seed + 5)
     uris = ["".join(w) for w in sequences(("/", "a", "Z", "0", "5", "m"), 5, 1)]
     uris += ["/oOo0", "/H7mp", "/TO/Kn", "/pendants", "/spy", "/oO/o0", "/submit.php", "/", "/ab.d"]
-    stager_budget = 400 if acc.tier == "quick" else 4000
+    part = chunk.get("part", 0)
+    uris = [u for i, u in enumerate(uris) if i % 8 == part]
+    stager_budget = 50 if acc.tier == "quick" else 500
     for body_name, body in (("valid", valid), ("junk", junk)):
         # no request attached: decided by the body alone
         acc.transitions += 1
